@@ -98,6 +98,13 @@ bool is_private_or_reserved_ipv6(const std::string& host) {
     if (normalized == "::" || normalized == "::1") {
         return true;
     }
+    constexpr std::string_view kMappedPrefix{"::ffff:"};
+    if (normalized.rfind(kMappedPrefix, 0) == 0) {
+        std::array<std::uint8_t, 4> mapped{};
+        if (parse_ipv4(normalized.substr(kMappedPrefix.size()), mapped)) {
+            return is_private_or_reserved_ipv4(mapped);  // IPv4-mapped IPv6
+        }
+    }
     if (normalized.rfind("fc", 0) == 0 || normalized.rfind("fd", 0) == 0) {
         return true;  // Unique local addresses
     }
